@@ -622,6 +622,17 @@ def cast_int(a, tbits, tsigned):
     r = AInt(tbits, tsigned, lo, hi, kz, ko, term=term, sym=sym if a.sym is not None else None, taint=a.taint)
     if a.negof is not None and tbits == sbits:
         r.negof = cast_int(a.negof, tbits, tsigned)
+    elif a.negof is not None and tbits > sbits and a.signed:
+        # sign extension of -y is -(zero extension of y) whenever 0 <= y <= 2^(sbits-1) as a bit pattern
+        Y = a.negof.symbits()
+        if Y[sbits - 1] == 0 or (Y[sbits - 1] == 1 and all(b == 0 for b in Y[:sbits - 1])):
+            yu = AInt(sbits, False, None, None, 0, 0, sym=list(Y)) if a.negof.sym is not None else AInt.const(sbits, False, a.negof.uval()) if a.negof.is_const() else None
+            if yu is not None:
+                z = cast_int(cast_int(yu, tbits, False), tbits, tsigned)
+                r2, _ = neg(z)
+                if r2.negof is not None or r2.is_const():
+                    r2.taint = a.taint
+                    return r2
     return r
 
 
